@@ -229,6 +229,7 @@ func (r *Report) Finish(verifDir string, start time.Time, seed int, expl Explana
 	total := 0
 	disch := 0
 	nontrivial := 0
+	seenKey := map[string]bool{}
 	var samples []interface{}
 	perRule := map[string]int{}
 	for _, o := range r.Obs {
@@ -239,9 +240,12 @@ func (r *Report) Finish(verifDir string, start time.Time, seed int, expl Explana
 		if o.Status == Discharged {
 			disch++
 		}
-		if len(o.Facts) > 0 || o.Status != Discharged {
+		// non-trivial: the decision looked at a located program construct (not a table-only or count-only
+		// obligation); distinct: obligation keys are unique per report
+		if !seenKey[o.Key()] && ((o.Pos != "" && o.Pos != "-") || len(o.Facts) > 0) {
 			nontrivial++
 		}
+		seenKey[o.Key()] = true
 		perRule[o.Rule]++
 	}
 	// samples: all non-discharged + up to 3 per rule of discharged
@@ -283,7 +287,7 @@ func (r *Report) Finish(verifDir string, start time.Time, seed int, expl Explana
 		"level":       "other",
 		"coverage": map[string]interface{}{
 			"explanation":         expl.Text,
-			"rule":                expl.Rule,
+			"rule":                expl.Rule + "; an obligation counts as distinct and non-trivial when its key (rule | construct) is unique in the run and its decision inspected a located construct of /repo (it carries a source position or recorded facts); table-only and instance-count obligations are not counted",
 			"obligations":         total,
 			"discharged":          disch,
 			"evaluations":         total,
